@@ -25,12 +25,19 @@ RULE = ("runs of N in {2,4,8,16} (thorough also 24 and 40 > core count) concurre
         ">= 2 simultaneously live intermediates (or >= 2 concurrent readers); distinct by (N, mix, input form, barrier, overlap pattern)")
 REQUIRED = ["concurrent runs", "importer processes", "outputs compared with solitary import", "runs with overlap >= 2",
             "temp paths attributed to exactly one pid", "intermediate files created", "intermediate files removed",
-            "reader processes", "barrier arrivals", "runs with a failing neighbour import", "runs with very large inputs"]
+            "reader processes", "barrier arrivals", "runs with a failing neighbour import", "runs with very large inputs",
+            "runs with importers forked from one parent that had already used gffutils",
+            "importers parked at a statement while a neighbour ran a whole import", "parks released by the neighbour's completion",
+            "runs with prefix-related output names over stale files, force=True and a late starter",
+            "runs in which forked importers share one DataIterator object made by the parent",
+            "runs whose importer processes each had their own PYTHONHASHSEED", "stored row order compared with solitary import"]
 ASSUMPTIONS = [
     "overlap is forced at the one point where gffutils holds an intermediate file (between writing and re-reading it); other "
     "interleavings are left to the scheduler (free-running runs with start offsets are included so the barrier cannot mask a failure)",
     "a run whose observed overlap is < 2 is not counted as evidence (and the whole check is inconclusive if no run overlaps)",
     "inotifywait is an additional, independent event source; if it cannot start the audit-hook logs alone decide",
+    "'what a solitary run produces' includes the order in which rows are stored (unordered queries return it): imports started with "
+    "different PYTHONHASHSEED values are compared row by row with a solitary import",
 ]
 QUICK_SHARDS = 4
 THOROUGH_SHARDS = 4
@@ -72,9 +79,11 @@ def huge_annotation(seed):
     return "\n".join(lines) + "\n"
 
 
-def spawn(argsfile, tmpdir):
+def spawn(argsfile, tmpdir, hashseed=None):
     env = dict(os.environ)
     env["TMPDIR"] = tmpdir
+    if hashseed is not None:
+        env["PYTHONHASHSEED"] = str(hashseed)      # separately started processes do not share a string-hash seed
     return subprocess.Popen([sys.executable, "-m", "gvmon.procs.c20_worker", argsfile], env=env, cwd=HERE,
                             stdout=subprocess.DEVNULL, stderr=subprocess.PIPE)
 
@@ -82,6 +91,16 @@ def spawn(argsfile, tmpdir):
 _solo_cache = {}
 _PATTERNS = set()
 _PARKS = set()
+
+
+def ordered_rows(path):
+    import sqlite3
+    conn = sqlite3.connect("file:%s?mode=ro" % path, uri=True)
+    try:
+        return [list(r) for r in conn.execute("SELECT parent, child, level FROM relations ORDER BY rowid")] + \
+               [[r[0]] for r in conn.execute("SELECT id FROM features ORDER BY rowid")]
+    finally:
+        conn.close()
 
 
 def file_state(path):
@@ -112,6 +131,7 @@ def solitary(ctx, root, text, from_string):
         db.conn.close()
         dump = dbdump.dump(out)
         dump["file_state"] = file_state(out)
+        dump["ordered_rows"] = ordered_rows(out)
     finally:
         for p in (inp, out, out + "-wal", out + "-shm", out + "-journal"):
             if os.path.exists(p):
@@ -187,16 +207,19 @@ def imports(ctx, case):
                     a["offset_ms"] = 150
             af = os.path.join(outdir, "args%d.json" % i)
             json.dump(a, open(af, "w"))
+            if case.get("shared_iterator"):
+                a["shared_iterator"] = True
             if case.get("forkpool"):
                 procs.append((i, a, None))
             else:
-                procs.append((i, a, spawn(af, tmpdir)))
+                procs.append((i, a, spawn(af, tmpdir, hashseed=rng.randrange(1, 2 ** 31) if case.get("hashseeds") else None)))
         if case.get("forkpool"):
             # one parent interpreter that has already imported and used gffutils forks all N importers
             pf = os.path.join(outdir, "args_pool.json")
             os.makedirs(os.path.join(root, "parent"))
             json.dump({"role": "forkpool", "children": [a for _, a, _ in procs], "result": os.path.join(outdir, "res_pool.json"),
-                       "parent_dir": os.path.join(root, "parent"), "parent_actions": case.get("parent_actions", [])}, open(pf, "w"))
+                       "parent_dir": os.path.join(root, "parent"), "parent_actions": case.get("parent_actions", []),
+                       "shared_input": procs[0][1]["input"] if case.get("shared_iterator") else None}, open(pf, "w"))
             parent = spawn(pf, tmpdir)
             procs = [(i, a, parent) for i, a, _ in procs]
         failer = None
@@ -266,6 +289,15 @@ def imports(ctx, case):
                                      "importer": i, "got": fs, "solitary": solo["file_state"]})
                 return
             d = dbdump.diff(solo, dbdump.dump(out_db))
+            if not d:
+                # the rows as stored (rowid order), not only as a set: an import is a function of its input, whatever
+                # the process's string-hash seed
+                rows = ordered_rows(out_db)
+                ctx.mon("stored row order compared with solitary import")
+                if rows != solo["ordered_rows"]:
+                    k = next(j for j in range(min(len(rows), len(solo["ordered_rows"]))) if rows[j] != solo["ordered_rows"][j])
+                    d = {"why": "same rows, other stored order than the solitary import", "first_difference_at_row": k,
+                         "got": rows[k], "solitary": solo["ordered_rows"][k]}
             if d:
                 ctx.violation(case, {"why": "database produced under concurrency differs from the solitary import", "importer": i, "diff": d})
                 return
@@ -354,6 +386,10 @@ def imports(ctx, case):
             ctx.mon("runs with importers forked from one parent that had already used gffutils")
             for act in case.get("parent_actions", []):
                 ctx.mon("forking parent had used the library: " + act)
+        if case.get("shared_iterator"):
+            ctx.mon("runs in which forked importers share one DataIterator object made by the parent")
+        if case.get("hashseeds"):
+            ctx.mon("runs whose importer processes each had their own PYTHONHASHSEED")
         if case.get("prefix_names"):
             ctx.mon("runs with prefix-related output names over stale files, force=True and a late starter")
         case["_overlap"] = overlap
@@ -464,7 +500,7 @@ def run(ctx):
                         fmts = {"same": ["gff3"], "different": ["gff3"], "gff3+gtf": ["gff3", "gtf"], "gtf": ["gtf"]}[mix]
                         seeds = [rng.randrange(10 ** 6)] if mix == "same" else [rng.randrange(10 ** 6) for _ in range(N)]
                         case = {"kind": "imports", "n": N, "fmts": fmts, "seeds": seeds, "size": 3 if barrier else 25,
-                                "from_string": from_string, "barrier": barrier}
+                                "from_string": from_string, "barrier": barrier, "hashseeds": i % 2 == 0}
                         execute(ctx, case)
                         ov = case.pop("_overlap", 0)
                         pat = case.pop("_pattern", [])
@@ -506,6 +542,9 @@ def run(ctx):
                 case = {"kind": "imports", "n": N, "fmts": fmts, "seeds": [rng.randrange(10 ** 6) for _ in range(N)], "size": 3,
                         "from_string": False, "barrier": True, "forkpool": True,
                         "parent_actions": rng.sample(PARENT_ACTIONS, rng.randrange(0, 3))}
+                if mix == "different" or (mix == "gtf" and N == 4):
+                    # all children import from ONE DataIterator object that the parent made before forking
+                    case.update({"shared_iterator": True, "seeds": case["seeds"][:1], "size": 40})
                 execute(ctx, case)
                 ov = case.pop("_overlap", 0)
                 pat = case.pop("_pattern", [])
@@ -555,7 +594,7 @@ MANIFEST = {
             "hold a live intermediate file, so the overlap is observed, not hoped for; runs without the barrier and with random "
             "start offsets are added. Every temp path each process opens/creates/removes is logged by an audit hook and checked "
             "offline together with an independent inotify log; each output is compared with a solitary import through plain "
-            "sqlite3. Reader processes read a finished database simultaneously while an import runs beside them. Variants: outputs sharing a basename in different directories, flat inputs without second-level relations, a deliberately failing neighbour import released while the healthy ones hold their intermediate files, imports of ~2*10^5 features, and a look into the directory while each importer process is still alive; readers also run region/limit queries. Importers are also forked (os.fork) from one parent interpreter that has already used the library (set_pragmas, update/delete, a failed import, the escape switch toggled and restored); one importer is parked at each of the first statements of _update_relations/_finalize/_populate_from_lines while a neighbour import starts, runs and finishes; outputs whose names are prefixes of one another are imported with force=True over stale files with one late starter; the journal mode and side files of each output are compared with a solitary import's.",
+            "sqlite3. Reader processes read a finished database simultaneously while an import runs beside them. Variants: outputs sharing a basename in different directories, flat inputs without second-level relations, a deliberately failing neighbour import released while the healthy ones hold their intermediate files, imports of ~2*10^5 features, and a look into the directory while each importer process is still alive; readers also run region/limit queries. Importers are also forked (os.fork) from one parent interpreter that has already used the library (set_pragmas, update/delete, a failed import, the escape switch toggled and restored); one importer is parked at each of the first statements of _update_relations/_finalize/_populate_from_lines while a neighbour import starts, runs and finishes; outputs whose names are prefixes of one another are imported with force=True over stale files with one late starter; the journal mode and side files of each output are compared with a solitary import's; forked importers also share one DataIterator object made by their parent; spawned importers get their own PYTHONHASHSEED and the rows are compared in stored order.",
     "note": "Trusted: the OS scheduler only for the free-running class; CPython audit events for open/remove/mkstemp. Evidence "
             "reports the maximum number of simultaneously live intermediate files actually seen.",
 }
